@@ -30,7 +30,7 @@ from .core import Abort, HarnessError, SymFP, SymInt, SymReal, rv
 ROOT = os.path.dirname(os.path.dirname(os.path.abspath(__file__)))
 EXIT_OK, EXIT_VIOLATION, EXIT_INCONCLUSIVE, EXIT_HARNESS = 0, 1, 2, 3
 ROBUST_FACTORS = [10**6, 10**3, 10]
-ITEM_BUDGET_S = 60  # wall-clock budget of one configuration (all its paths, obligations and replays)
+ITEM_BUDGET_S = 180  # wall-clock budget of one configuration (all its paths, obligations and replays)
 OBLIG_TIMEOUT_MS = int(os.environ.get("VERIF_OBLIG_TIMEOUT_MS", "20000"))
 XCHECK_RATE = float(os.environ.get("VERIF_XCHECK_RATE", "0.02"))  # thorough tier: share of solver-discharged obligations re-decided by cvc5
 XCHECK_CAP = int(os.environ.get("VERIF_XCHECK_CAP", "60"))  # per worker chunk
@@ -246,6 +246,20 @@ def _solve(pc, negP, timeout_ms):
     s.add(negP)
     t = time.time()
     r = s.check()
+    if r == z3.unknown:
+        # the first attempt ran into its time limit (non-linear arithmetic is sensitive to the search order): two more attempts with other seeds, then the second solver;
+        # only 'unsat' is taken over from a retry (a 'sat' still needs the model of THIS solver object for the replay)
+        for seed_ in (7, 23):
+            s2 = z3.Solver()
+            s2.set("timeout", timeout_ms)
+            s2.set("random_seed", seed_)
+            s2.add(*pc)
+            s2.add(negP)
+            r2 = s2.check()
+            if r2 != z3.unknown:
+                return r2, s2, time.time() - t
+        if cvc5_verdict(s.to_smt2(), timeout_ms) == "unsat":
+            return z3.unsat, s, time.time() - t
     return r, s, time.time() - t
 
 
